@@ -10,7 +10,7 @@ on the real interpreter.
 import copy, json
 from vlib import MachineryError
 
-FAMILIES = ['assign', 'cond', 'loop', 'concat', 'call', 'const', 'pattern', 'flow', 'misc', 'fracconst', "builtins2"]
+FAMILIES = ['assign', 'cond', 'loop', 'concat', 'call', 'const', 'pattern', 'flow', 'misc', 'fracconst', "builtins2", "valuetype"]
 
 
 def corrupt(case, rnd):
